@@ -46,12 +46,22 @@ fn shape(g: &G) -> String {
     }
 }
 
+fn parse_exact(src: &str) -> Result<N, String> {
+    match guard(|| Parser::new().parse(src)) {
+        Ok(Ok(e)) => Ok(N::from_parsed_exact(&e)),
+        Ok(Err(e)) => Err(format!("compile-error: {}", crate::subj::first_line(&e.to_string()))),
+        Err(p) => Err(format!("panic: {}", p)),
+    }
+}
+
 fn check_tree(run: &mut Run, g: &G, family: &str) {
-    let exp = N::from_g(g);
+    let exp_flat = N::from_g(g);
+    // a fully parenthesised source leaves no chain to balance: the exact binary tree is demanded
+    let exp_exact = N::from_g_exact(g);
     for (rname, src) in [("full", g.full()), ("min", g.min())] {
-        let got = parse(&src);
+        let (got, exp) = if rname == "full" { (parse_exact(&src), &exp_exact) } else { (parse(&src), &exp_flat) };
         run.trans(1);
-        let ok = matches!(&got, Ok(n) if *n == exp);
+        let ok = matches!(&got, Ok(n) if n == exp);
         run.class(&format!("{}:{}:{}:{}", family, rname, outcome_tag(&got), if ok { "same" } else { "DIFF" }), || json!({"src": src, "expected": exp.show()}));
         if !ok {
             let gs = match &got {
